@@ -253,6 +253,11 @@ func TestC30(t *testing.T) {
 			}
 			accepted := uiInput.consumed == 2
 			want, ok := refReadValue(s)
+			if col.WantSample() {
+				col.Sample(map[string]interface{}{"prompt_input": s, "register_width": int(w), "accepted": accepted})
+			} else {
+				col.SkipSample()
+			}
 			if accepted != ok {
 				t.Fatalf("value %q typed for a %d byte register: accepted=%v, reference grammar says %v (output %q)", s, w, accepted, ok, out)
 			}
@@ -298,6 +303,11 @@ func TestC30(t *testing.T) {
 			}
 			want, ok := refParseAddr(s)
 			parseErr := strings.Contains(out, "cannot parse argument")
+			if col.WantSample() {
+				col.Sample(map[string]interface{}{"address_argument": s, "parse_error": parseErr})
+			} else {
+				col.SkipSample()
+			}
 			switch {
 			case !ok:
 				if !parseErr {
@@ -337,10 +347,6 @@ func TestC30(t *testing.T) {
 				col.Nontrivial("a/" + s)
 			}
 		}
-		if col.WantSample() {
-			col.Sample(map[string]string{"note": "see classes; strings are drawn per case"})
-		} else {
-			col.SkipSample()
-		}
+
 	})
 }
